@@ -154,7 +154,6 @@ func main() {
 		pprof.StartCPUProfile(f)
 		defer pprof.StopCPUProfile()
 	}
-	balenum.TuneGC(256 << 20)
 	r := ev.New("C25", "exploration")
 	r.Rule("every input of a small grammar is run once per count-map insertion order: members x per-member subscription (non-empty topic subsets, plus one member subscribed to nothing / to a nonexistent topic) x partition counts x static/dynamic IDs x member racks x partition-leader racks x prior ownership (partition -> nobody | one member | two conflicting members, member generation current | stale); a case is non-trivial when at least two members compete for a topic; distinct = distinct (balancer, members, partition counts, subscriptions, resulting plan)")
 	r.Assume(
@@ -183,9 +182,10 @@ func main() {
 	r.Set("bound_completed", map[string]any{
 		"range_roundrobin":   fmt.Sprintf("members<=%d, topics<=2 with 1..%d partitions (+1 nonexistent topic), all subscription vectors incl. one special member, dynamic and static(reversed) IDs", sb.maxMembers, sb.maxPer),
 		"range_racks":        fmt.Sprintf("members<=%d on {none,ra,rb}^n, topics<=2 with 1..%d partitions, leaders on {ra,rb}^P", sb.rackMembers, sb.rackPer),
-		"sticky_cooperative": fmt.Sprintf("members<=%d; full prior sweep: total partitions<=%d (<=%d at %d members); special-member sweep: <=%d; rack sweep (2 racks, all placements): <=%d; topics<=2 with 1..3 partitions", st.MaxMembers, st.FullTotal, st.FullTotalAtMax, st.MaxMembers, st.SpecialTotal, st.RacksTotal),
+		"sticky_cooperative": fmt.Sprintf("members<=%d; full prior sweep: total partitions<=%d (<=%d at %d members); special-member sweep: <=%d; rack sweep (2 racks, all placements): <=%d; topics<=2 with 1..3 partitions; count-map insertion orders: %s", st.MaxMembers, st.FullTotal, st.FullTotalAtMax, st.MaxMembers, st.SpecialTotal, st.RacksTotal, map[int]string{0: "one per input, alternating", 1: "one", 2: "both for every input"}[st.Orders]),
 	})
 
+	balenum.TuneGC(256 << 20)
 	coll := balenum.NewCollector()
 	ch := make(chan job, 256)
 	var wg sync.WaitGroup
